@@ -8,8 +8,8 @@ package c02
 import (
 	"bytes"
 	"fmt"
-	"os"
 	"math/rand"
+	"os"
 	"testing"
 
 	"github.com/canopy-network/canopy/fsm"
